@@ -95,7 +95,7 @@ Lemma build_upper_step2 c ldk k r rl segs1 ln1 :
   lrec_ok c ldk k r -> 1 < lr_ln r -> lr_ln r + 1 + c_epsrec c < 2 ^ 64 - 1 ->
   tail1 ldk (lr_new r) ->
   let keys' := map sg_key (firstn (Z.to_nat (lr_ln r)) (lr_L r)) in
-  level_float_ok c (c_epsrec c) keys' ldk k ->
+  level_float_ok_cap c (c_epsrec c) keys' ldk k ->
   build_level c (c_epsrec c) keys' (lr_ln r) ldk (below (r :: rl)) = Ok (segs1, ln1) ->
   exists r', lrec_ok c ldk k r' /\ link c r r' /\ segs1 = below (r' :: r :: rl) /\ lr_ln r' = ln1 /\
              tail1 ldk (lr_new r') /\ shrinkP c r'.
@@ -108,7 +108,7 @@ Proof.
   destruct (build_level_desc _ _ _ _ _ _ _ H Hpar Hne' Hs' Hw' ltac:(lia))
     as (css & fed & cnt & g & new & T & M1 & M2 & Es & Hcat & F1 & F2 & He & Htail).
   destruct (Hfl css fed cnt new M1 M2) as [Fev _].
-  pose proof (Lv_of_Forall2 c (c_epsrec c) (EvalOK c k) css g new F1 F2 Fev) as HL.
+  pose proof (Lv_of_Forall2 c (c_epsrec c) (EvalOKc (zlen keys' + c_epsrec c) c k) css g new F1 F2 Fev) as HL.
   destruct (Lv_first_key c _ _ (c_kt c) keys' css g new Hne' Hcat HL) as [Hnn _].
   set (r' := mkL keys' (c_epsrec c) css g new T ln1).
   assert (Hok' : lrec_ok c ldk k r').
@@ -136,7 +136,7 @@ Lemma build_upper_chain2 c ldk k :
   1 <= kbits (c_kt c) -> 1 <= c_par c -> 1 <= c_epsrec c -> c_epsrec c + 2 ^ 32 < 2 ^ 64 - 1 ->
   forall fuel rl r segsF offsF,
     chainR c ldk k (r :: rl) -> Forall (T1 ldk) (r :: rl) ->
-    upper_float_ok c fuel ldk (below (r :: rl)) (offs_of (r :: rl)) (lr_ln r) k ->
+    upper_float_ok_cap c fuel ldk (below (r :: rl)) (offs_of (r :: rl)) (lr_ln r) k ->
     build_upper c fuel ldk (below (r :: rl)) (offs_of (r :: rl)) (lr_ln r) = Ok (segsF, offsF) ->
     zlen segsF < 2 ^ 32 ->
     exists up, chainR c ldk k (up ++ r :: rl) /\ segsF = below (up ++ r :: rl) /\
@@ -147,7 +147,7 @@ Proof.
   - cbn [build_upper] in H. destruct ((c_epsrec c =? 0) || (lr_ln r <=? 1)) eqn:Ec; [|discriminate H].
     injection H as <- <-. exists []. cbn [app hd]. split; [exact Hch|]. split; [reflexivity|]. split; [reflexivity|].
     split; [|split; [exact HT|constructor]]. apply orb_true_iff in Ec. destruct Ec as [Ec|Ec]; lia.
-  - cbn [build_upper upper_float_ok] in H, Hfl.
+  - cbn [build_upper upper_float_ok_cap] in H, Hfl.
     destruct ((c_epsrec c =? 0) || (lr_ln r <=? 1)) eqn:Ec.
     { injection H as <- <-. exists []. cbn [app hd]. split; [exact Hch|]. split; [reflexivity|]. split; [reflexivity|].
       split; [|split; [exact HT|constructor]]. apply orb_true_iff in Ec. destruct Ec as [Ec|Ec]; lia. }
@@ -180,7 +180,7 @@ Theorem build_chain_gap c data ix k :
   1 <= kbits (c_kt c) -> 1 <= c_par c -> 1 <= c_epsrec c -> c_epsrec c + 2 ^ 32 < 2 ^ 64 - 1 ->
   data <> [] -> sortedb data = true -> Forall (fun x => in_ktype (c_kt c) x = true) data ->
   last_z data < sentinel c -> zlen data + c_eps c < 2 ^ 64 - 1 ->
-  float_ok c data k -> build c data = Ok ix -> zlen (ix_segments ix) < 2 ^ 32 ->
+  float_ok_cap c data k -> build c data = Ok ix -> zlen (ix_segments ix) < 2 ^ 32 ->
   exists up r0,
     chainR c (last_z data) k (up ++ [r0]) /\ lr_keys r0 = data /\
     ix = mkIndex (zlen data) (hd 0 data) (below (up ++ [r0])) (offs_of (up ++ [r0])) /\
@@ -208,7 +208,7 @@ Proof.
     as (css & fed & cnt & g & new & T & M1 & M2 & Es & Hcat & F1 & F2 & He & Htail).
   cbn [app] in Es, Htail.
   destruct (Hf0 css fed cnt new M1 M2) as [Fev Fext].
-  pose proof (Lv_of_Forall2 c (c_eps c) (EvalOK c k) css g new F1 F2 Fev) as HL.
+  pose proof (Lv_of_Forall2 c (c_eps c) (EvalOKc (zlen data + c_eps c) c k) css g new F1 F2 Fev) as HL.
   set (r0 := mkL data (c_eps c) css g new T ln).
   assert (Hok0 : lrec_ok c (last_z data) k r0).
   { unfold lrec_ok, r0. cbn [lr_keys lr_eps lr_css lr_g lr_new lr_T lr_ln]. do 6 (split; [assumption|]). exact Htail. }
